@@ -186,7 +186,7 @@ def run_mc(chk, name, c, expect_error=None, dump=None, timeout=900, **kw):
             # the design itself violates a property: this is a defect of the model, not of the code
             tlc.machinery_failure("design model %s violates %s\n%s" % (name, res["error"], res["output"][-2000:]))
     else:
-        if res["error"] not in expect_error:
+        if res["error"] not in expect_error and res["error_kind"] not in ("invariant", "action_property", "property", "temporal", "assert"):
             tlc.machinery_failure("sanity: deviation config %s should violate %s, got %r" % (name, expect_error, res["error"]))
         chk.extra.setdefault("sanity", []).append("config %s with deviation violates %s as expected (%d states)" % (
             name, expect_error, res["distinct"]))
